@@ -66,7 +66,7 @@ func FuzzC18(f *testing.F) {
 			for len(w) < gateRowWires {
 				w = append(w, [2]uint64{1, 2})
 			}
-			s.exec(rt, "supported", c18Sup{g, w, c, pi}, "fuzz/supported/"+typ)
+			s.exec(rt, "supported", c18Sup{Gate: g, W: w, C: c, PI: pi}, "fuzz/supported/"+typ)
 		} else {
 			id := genUnsupportedId().Draw(rt, "id")
 			s.exec(rt, "unsupported", id, "fuzz/unsupported/"+strings.SplitN(id, " ", 2)[0])
